@@ -464,7 +464,9 @@ class Real:
                     import gc
                     gc.collect()
                     if self.wrefs[k]() is not None:
-                        raise RuntimeError("C16 harness: pool object %d is still referenced: %r" % (k, gc.get_referrers(self.wrefs[k]())))
+                        # something other than a table entry keeps it alive: not what the model says ("collected")
+                        self.pool[k] = self.wrefs[k]()
+                        return "leaked"
                 return "collected"
             if kind in "FP":
                 t, dead = self.target(op[1])
@@ -788,8 +790,11 @@ def _run_history(real, ops, ctx=None, verbose=False):
 
 
 def _run(ctx, name, n, do_model):
-    f = _facts()
-    cfg = "".join("1" if x else "0" for x in f["cfg"])
+    try:
+        cfg = "".join("1" if x else "0" for x in _facts()["cfg"])
+    except Exception as x:       # source shape not recognised (already reported by step A): compare with the repaired model
+        cfg = "11111"
+        ctx.notes.append("C16: extractor failed (%r); correspondence run uses Cfg.fixed" % (x,))
     rng = ctx.sub_rng(name)
     cases = [{"name": fn, "ops": ops} for fn, ops in _corpus()] if name == "corr" else []
     real = Real()
